@@ -151,7 +151,11 @@ func (portHistWorld) Gen(seed uint64, tier string) core.Scenario {
 			for i := 0; i < k; i++ {
 				switch r.Weighted(70, 15, 15) {
 				case 0:
-					op.Data = append(op.Data, genChanMsg(r, 0)...)
+					cm := genChanMsg(r, 0)
+					if cm[0] == 0xBF {
+						cm[0] = 0xBE // BF 70 n is the echo request; it is only sent alone (see below)
+					}
+					op.Data = append(op.Data, cm...)
 				case 1:
 					op.Data = append(op.Data, rtDefined[1+r.Intn(3)]) // FA FB FC
 				default:
